@@ -73,6 +73,24 @@ def gateArray (car : Carrier α) (name : String) (p : List (CS α)) : Option (Ar
   | "rzz", [x] => some (Gates.rzz car.I x) | "u3", [x, y, z] => some (Gates.u3 car.I x y z)
   | _, _ => none
 
+/-- the derivative arrays of the parametrised constructors (`Gates.drx …`), `κ` the chain factor of the first pair -/
+def dgateArray (car : Carrier α) (name : String) (κ : α) (p : List (CS α)) : Option (Array α) :=
+  match name, p with
+  | "rx", [x] => some (Gates.drx car.I κ x) | "ry", [x] => some (Gates.dry κ x) | "rz", [x] => some (Gates.drz car.I κ x)
+  | "rzz", [x] => some (Gates.drzz car.I κ x)
+  | "u3t", [x, y, z] => some (Gates.du3Theta car.I κ x y z)
+  | "u3p", [x, y, z] => some (Gates.du3Phi car.I x y z)
+  | "u3l", [x, y, z] => some (Gates.du3Lambda car.I x y z)
+  | _, _ => none
+
+/-- a gate-list entry carrying `∂gate/∂θ` in place of the gate (`c…` names: inside a control entry, qubits = control, target) -/
+def dgateRaw (car : Carrier α) (name : String) (q : List Int) (κ : α) (p : List (CS α)) : Option (RawOp α) :=
+  if name.startsWith "c" then
+    match q with
+    | [c, t] => (dgateArray car (name.drop 1).toString κ p).map fun a => .control a [c] [t]
+    | _ => none
+  else (dgateArray car name κ p).map fun a => .unitary a q
+
 /-- one program step: `u:<t>:<U>`, `c:<c>:<t>:<U>`, `m:<s>:<bits>`, `x:<U>`, `s:<delta>` (shift everything so far),
 `v:<name>:<qubits>:<pairs>` (a method of the gate vocabulary, read through `Vocab.toRaw`) -/
 inductive Step (α : Type) where
@@ -87,6 +105,8 @@ def parseStep (car : Carrier α) (s : String) : Option (Step α) :=
   | ["m", sq, b] => do let sq ← parseIdx? sq; let b ← parseBits? b; pure (.op (.measure sq b))
   | ["x", u] => do let u ← parseArr car u; pure (.op (.custom u))
   | ["s", d] => do let d ← d.toInt?; pure (.shift d)
+  | ["dv", name, q, k, p] => do
+      let q ← parseIdx? q; let k ← car.parse k; let p ← parsePairs car p; let g ← dgateRaw car name q k p; pure (.op g)
   | ["v", name, q, p] => do
       let q ← parseIdx? q; let p ← parsePairs car p; let v ← parseVocab name q p; pure (.op (v.toRaw car.I))
   | _ => none
@@ -182,6 +202,11 @@ def handleR (car : Carrier α) (args : List String) : String :=
   | ["gatemat", name, p] => Id.run do
       let some p := parsePairs car p | return "bad-op"
       let some a := gateArray car name p | return "bad-op"
+      return strArr car a
+  | ["dgate", name, k, p] => Id.run do
+      let some k := car.parse k | return "bad-op"
+      let some p := parsePairs car p | return "bad-op"
+      let some a := dgateArray car name k p | return "bad-op"
       return strArr car a
   | ["vocab", name, q, p] => Id.run do
       let some q := parseIdx? q | return "bad-op"
